@@ -996,6 +996,37 @@ func ruleC17TagNames(p *Prog, a *Anchors, r *Report) {
 			r.OK("removetags:pattern", p.Pos(f.Pos()), "pattern %q agrees with letter(letter|digit)* on %d strings", pat, n)
 		}
 	}
+	// every name is validated: in the loop over the names, no pass reaches the next one (or leaves the loop) without the
+	// validation call — a name that is skipped (`if tag == "" { continue }`) still ends up in the expression joined
+	// from the unfiltered list, and an empty alternative matches `<>` and `</>`
+	for _, fn := range clusterOf(p, f, 2) {
+		for _, b := range fn.Blocks {
+			for _, in := range b.Instrs {
+				c, ok := in.(*ssa.Call)
+				if !ok || c.Common().StaticCallee() == nil || p.extName(c.Common().StaticCallee()) != "(*regexp.Regexp).MatchString" {
+					continue
+				}
+				hdr := innermostLoopHeader(b)
+				if hdr == nil {
+					continue
+				}
+				skipped := false
+				for _, pr := range hdr.Preds {
+					if !hdr.Dominates(pr) {
+						continue
+					}
+					if !MustPassFrom(hdr, 0, pr.Instrs[len(pr.Instrs)-1], func(x ssa.Instruction) bool { return x == ssa.Instruction(c) }) {
+						skipped = true
+					}
+				}
+				if skipped {
+					r.Bad("removetags:every-name", p.InstrPos(in), "a pass of the loop over the tag names can go on to the next name without the validation call: a name that is skipped (an empty one, from \"b,i,\") is still part of the list the expression is built from — `</?(?:i|)/?>` also removes `<>` and `</>`, which nobody named")
+				} else {
+					r.OK("removetags:every-name", p.InstrPos(in), "every pass of the loop over the names goes through the validation")
+				}
+			}
+		}
+	}
 	// the expression built from the names: instantiated for the names a and b and evaluated on all strings of up to 7
 	// items over {<, >, /, a, b, -, x, space}: every plain named tag (<a>, </a>, <a/>) is matched, and everything that is
 	// matched is a tag named a or b (name followed by `>`, `/` or white space) — `<ab>`, `<a-b>`, `<x>` and text stay.
